@@ -330,6 +330,7 @@ def run(chk):
     _probesym_rule(chk, prog)
     _restore_rule(chk, prog)
     _growtharg_rule(chk, prog)
+    _ensuresum_rule(chk, prog)
 
 
 def _restore_rule(chk, prog):
@@ -386,6 +387,53 @@ def _restore_rule(chk, prog):
                 S = T(S, n)
         chk.ok(rule, "%s: restore idiom, no raising call while the count is overwritten" % fn.name)
     chk.floor(rule, 30)
+
+
+def _ensuresum_rule(chk, prog):
+    """janet_buffer_ensure / janet_array_ensure take the wanted capacity as an int32 and do nothing when it is not larger
+    than the current one.  A caller that computes that capacity as `count + n` (or a product) in 32 bits gets a negative
+    number once the sum passes INT32_MAX, the call silently does nothing, and whatever relied on the room having been
+    made - a raw write behind count, or `the storage will not move while I read from it` - is wrong.  (janet_buffer_extra
+    is the checked way to ask for n more bytes.)"""
+    rule = "C04-ENSURESUM"
+    chk.rule(rule, "a capacity handed to janet_buffer_ensure / janet_array_ensure is not a 32-bit sum or product that can wrap unnoticed")
+    n = 0
+    for fn in prog.all_funcs():
+        if fn.tu.name in ("shell.c",):
+            continue
+        sites = [c for c in fn.calls("janet_buffer_ensure", "janet_array_ensure") if len(c.args) == 3]
+        sites = [c for c in sites if strip_casts(c.args[1]).k == "bin" and strip_casts(c.args[1]).op in ("+", "*")
+                 and (strip_casts(c.args[1]).t or "") in ("int", "int32_t")
+                 and any(y.k in ("mem", "ref") and y.v is None and y.d.get("d") != "enum" for y in c.args[1].walk())]
+        if not sites:
+            continue
+        chk.analysed(fn)
+        IN, T = flow.condition_facts(fn)
+        for x, S in flow.states_at(fn, IN, T):
+            if x not in sites:
+                continue
+            n += 1
+            chk.instance(rule)
+            e = strip_casts(x.args[1])
+            ops = set(y.text().replace(" ", "") for y in e.walk() if y.k in ("mem", "ref") and y.v is None)
+            ok = bool(S)
+            for ps in S:
+                good = False
+                for (op, l, r, toks, ln, rn) in ps:
+                    both = [z for z in (ln, rn) if z is not None]
+                    if any("INT32_MAX" in y.macro_names() or y.v == 2 ** 31 - 1 for z in both for y in z.walk()) and \
+                            any(y.text().replace(" ", "") in ops for z in both for y in z.walk() if y.k in ("mem", "ref")):
+                        good = True
+                if not good:
+                    ok = False
+            if ok:
+                chk.ok(rule, "%s: `%s` after an INT32_MAX guard on an operand" % (fn.name, e.text()[:40]))
+            else:
+                chk.violation(rule, fn.tu.name, fn.name, "%s:%s" % (x.callee, e.text()[:30].replace(" ", "")), x.loc,
+                              "`%s` computes the wanted capacity in 32-bit arithmetic with no overflow guard: for a container close to "
+                              "2 GB (or, for a product, a few hundred MB) the value is negative, the call does nothing, and the code after "
+                              "it runs without the room it asked for" % x.text()[:70])
+    chk.floor(rule, 3, n)
 
 
 def _growtharg_rule(chk, prog):
